@@ -374,6 +374,7 @@ def main(argv=None) -> int:
     CR = C1 + bytes([4, 0, 4, 0])
     run_batches(chk, ((GR, CR, s) for s in raw_strings(maxlen - 1)), 'residue_proof', agg)
     run_batches(chk, ((GR, s, b'') for s in raw_strings(maxlen - 1)), 'residue_claim', agg)
+    run_batches(chk, ((GR, bytes([4, 0, 4, 0]), s) for s in raw_strings(maxlen)), 'residue_noclaim', agg)
     # (4) judgements at function level
     from . import universe
     jt = universe.meta(4 if thorough else 3)
